@@ -156,11 +156,8 @@ theorem codeOpen_opens {src k ls p} (q : Nat) {sA sB : St} {a : Option Nat × PS
 
 /-! ### the list parsers decline on sources in which no position starts a list item -/
 
-/-- no position of the source starts a list item: behind at most three spaces there is no bullet (`-`, `*`, `+`) and no
-    number of at most nine digits with `.` or `)` that is followed by a space, a tab, the end of the line or the end of the
-    source (`parser.matchesListItem` on the rest of the line, from EVERY position) -/
-def NoItem (src : Bytes) : Prop :=
-  ∀ p, p < src.length → (matchesListItem (sub src p (lineEnd src p)) true).2 = ListTyp.notList
+theorem noItem_def (src : Bytes) : NoItem src ↔
+    ∀ p, p < src.length → (matchesListItem (sub src p (lineEnd src p)) true).2 = ListTyp.notList := Iff.rfl
 
 instance (src : Bytes) : Decidable (NoItem src) := by unfold NoItem; exact Nat.decidableBallLT _ _
 
@@ -258,7 +255,7 @@ theorem ot_all (src : Bytes) (hno : NoItem src) : OT src where
     intro bp hbp
     cases bp <;> first | exact listOpen_sim src | exact listItemOpen_sim src | cases hbp
   ldecl := by
-    intro bp hbp k ls p q sA sB a sA' h hu e
+    intro bp hbp _ k ls p q sA sB a sA' h hu e
     cases bp <;> first | exact listOpen_declines hno q h e | exact listItemOpen_declines q hu e | cases hbp
 
 end GM.Blocks
